@@ -59,7 +59,8 @@ def cases_for(spec):
             r.shuffle(order)
             out.append({"files": [list(a) for a in asg], "order": order,
                         "missing": [r.random() < 0.25 for _ in range(n)],
-                        "twins": [r.random() < 0.35 for _ in range(n)]})
+                        "twins": [r.random() < 0.35 for _ in range(n)],
+                        "drops": [r.random() < 0.2 for _ in range(n)]})
     cells = [(ro, w) for ro in ROLES for w in WHEN if not (ro != "modified" and w == "after_mod")]
     for n, count in ((3, 150), (4, 150)) if spec["tier"] == "quick" else ((4, 2500), (5, 800)):
         for _ in range(count):
@@ -67,7 +68,8 @@ def cases_for(spec):
             order = list(range(n))
             r.shuffle(order)
             out.append({"files": asg, "order": order, "missing": [r.random() < 0.25 for _ in range(n)],
-                        "twins": [r.random() < 0.35 for _ in range(n)]})
+                        "twins": [r.random() < 0.35 for _ in range(n)],
+                        "drops": [r.random() < 0.2 for _ in range(n)]})
     return out
 
 
@@ -206,6 +208,18 @@ def run_case(info, trigger, case):
                     return V("read_raised", f"buffered read of file {i} through a second object raised "
                              f"{type(e).__name__}: {e}")
                 cnt["twin_reads"] = cnt.get("twin_reads", 0) + 1
+        # the program releases some of its objects before the backend-wide context exits (temporary handles): what
+        # they buffered must be flushed - and checked for conflicts - all the same
+        dropped = [i for i in range(n) if (case.get("drops") or [False] * n)[i] and trigger != "obj_exit"
+                   and files[i][0] != "untouched"]
+        if dropped:
+            import gc
+
+            for i in dropped:
+                objs[i] = None
+                twin_objs.pop(i, None)
+            gc.collect()
+            cnt["dropped_objects"] = cnt.get("dropped_objects", 0) + len(dropped)
         conflicts = {res[i].path for i, (role, when) in enumerate(files)
                      if role == "modified" and when in ("after_read", "after_mod")}
         cnt["conflicts_expected"] = len(conflicts)
@@ -289,6 +303,8 @@ def run_case(info, trigger, case):
         if cls.backend_is_buffered():
             return V("still_buffered", "backend_is_buffered() is still true")
         empty = {} if kind == "dict" else []
+        for i in dropped:
+            objs[i] = res[i].new_handle()
         for i, o in twin_objs.items():
             v, e = lib(lambda o=o: o())
             if disk[i] == MISSING and e is None:
